@@ -18,6 +18,7 @@ Obs == ndJsonDeserialize("obs.ndjson")
 VerdictOn(o, ts) ==
     [k |-> o.k, specok |-> RefOk(ts), wf |-> WellFormed(ts), why |-> Why(ts),
      okmatch  |-> (o.ok = RefOk(ts)),
+     want     |-> <<LastIdx(ts, 1), LastIdx(ts, 2), LastIdx(ts, 3), LastIdx(ts, 5), LastIdx(ts, 8)>>,
      idxmatch |-> ((o.ok /\ RefOk(ts)) =>
                       o.idx = <<LastIdx(ts, 1), LastIdx(ts, 2), LastIdx(ts, 3), LastIdx(ts, 5), LastIdx(ts, 8)>>),
      schema   |-> ((WellFormed(ts) /\ o.ok) => (o.sok /\ o.sagree)),
